@@ -56,6 +56,10 @@ def check_graph(case, sub="graphs"):
         raise Violation(sub, "argument-mutated", "height_func_list", "graph", "inputs changed")
     if list(got) != want:
         raise Violation(sub, "height-value", "height_func_list", "graph", "got %s, cut ranks %s" % (list(got), want))
+    for dt in (bool, float):
+        got_dt = guarded(sub, "graph:dtype_%s" % dt.__name__, height.height_func_list, np.eye(n).astype(dt), adj.astype(dt))
+        if list(got_dt) != want:
+            raise Violation(sub, "height-value", "height_func_list", "graph:dtype_%s" % dt.__name__, "x, z given as %s arrays: got %s, cut ranks %s" % (dt.__name__, list(got_dt), want))
     g = gg.to_nx(case)
     hd = guarded(sub, "graph", height.height_dict, graph=g)
     if [hd[i] for i in range(n)] != want or hd[-1] != 0:
